@@ -45,6 +45,8 @@ type entry struct {
 	run func(c *core.Case, e *entry, g *gen, doc bool)
 	// noDocs: no document-mutation cases for this entry.
 	noDocs bool
+	// reader caches hasReader (0 unknown, 1 yes, 2 no).
+	reader int
 }
 
 type encoded struct {
@@ -227,15 +229,18 @@ func runValue(c *core.Case, e *entry, g *gen) {
 		c.Count("slot_headers_with_case_variant_keys", g.headerVariants)
 	}
 	enc, ok := checkValue(c, e, v, why, smp)
+	// a second value of the type
+	var w any
+	if guard(c, e.name, "generate", func() { w = e.gen(g) }) {
+		return
+	}
+	// ---- law I (a): readers of two values built first, consumed afterwards
+	interleaveCheck(c, e, v, w)
 	if !ok || e.fresh == nil {
 		return
 	}
 	// ---- the R/F decode step again, into a target that already holds another
 	// value of the type
-	var w any
-	if guard(c, e.name, "generate", func() { w = e.gen(g) }) {
-		return
-	}
 	other := firstGoodEncoding(w)
 	if len(other) == 0 {
 		return
